@@ -324,3 +324,73 @@ func ViewProfile(p *profile.Profile) string {
 	fmt.Fprintf(&sb, "H drop=%q keep=%q t=%d d=%d p=%d dst=%q doc=%q pt=%s cm=%q\n", p.DropFrames, p.KeepFrames, p.TimeNanos, p.DurationNanos, p.Period, p.DefaultSampleType, p.DocURL, pt, cm)
 	return sb.String()
 }
+
+// Rechunk re-encodes a serialized profile in another valid protobuf form: every packed repeated
+// varint field (Sample.location_id, Sample.value, Profile.comment) is split into 2-4 packed
+// chunks and/or single unpacked elements, in order. A conforming
+// parser concatenates the occurrences, so the result describes the same profile. pick(n) returns a
+// number in [0,n).
+func Rechunk(b []byte, pick func(n int) int) ([]byte, error) {
+	top, err := Decode(b)
+	if err != nil {
+		return nil, err
+	}
+	split := func(f Field) []Field {
+		var vals []uint64
+		d := f.Data
+		for len(d) > 0 {
+			v, n := Uvarint(d)
+			if n <= 0 {
+				return []Field{f}
+			}
+			d = d[n:]
+			vals = append(vals, v)
+		}
+		if len(vals) < 2 {
+			return []Field{f}
+		}
+		var out []Field
+		for len(vals) > 0 {
+			k := 1 + pick(len(vals))
+			if k > 1 && pick(3) == 0 {
+				k = 1
+			}
+			if k == 1 && pick(2) == 0 {
+				out = append(out, Field{Num: f.Num, WT: 0, V: vals[0]})
+			} else {
+				var pd []byte
+				for _, v := range vals[:k] {
+					pd = PutUvarint(pd, v)
+				}
+				out = append(out, Field{Num: f.Num, WT: 2, Data: pd})
+			}
+			vals = vals[k:]
+		}
+		return out
+	}
+	var res []Field
+	for _, f := range top {
+		switch {
+		case f.Num == 2 && f.WT == 2: // Sample: location_id = 1, value = 2
+			sub, err := Decode(f.Data)
+			if err != nil {
+				return nil, err
+			}
+			var ns []Field
+			for _, sf := range sub {
+				if (sf.Num == 1 || sf.Num == 2) && sf.WT == 2 {
+					ns = append(ns, split(sf)...)
+				} else {
+					ns = append(ns, sf)
+				}
+			}
+			f.Data = Encode(ns)
+			res = append(res, f)
+		case f.Num == 13 && f.WT == 2: // Profile.comment
+			res = append(res, split(f)...)
+		default:
+			res = append(res, f)
+		}
+	}
+	return Encode(res), nil
+}
